@@ -86,9 +86,9 @@ var specList = []specFn{
 	{Name: "toDecimal", Counts: []int{0}, Recv: "'1.5'", Impl: true, Finger: map[int][]string{0: {"'1.5'.toDecimal() is System.Decimal", "'1.5'.toDecimal() = 1.5", "true.toDecimal() = 1.0"}}},
 	{Name: "convertsToDecimal", Counts: []int{0}, Recv: "'1.5'", Impl: true, Finger: map[int][]string{0: {"'1 \\'mg\\''.convertsToDecimal() = false", "'1.5'.convertsToDecimal()", "'x'.convertsToDecimal() = false"}}},
 	{Name: "toQuantity", Counts: []int{0, 1}, Recv: "5", Args: []string{"'days'"}, Impl: true, SingleArg: []int{0}, Finger: map[int][]string{0: {"5.toQuantity() is System.Quantity", "5.toQuantity() = 5 '1'", "'1 \\'wk\\''.toQuantity() is System.Quantity"}}},
-	{Name: "convertsToQuantity", Counts: []int{0, 1}, Recv: "5", Args: []string{"'days'"}, Impl: true, SingleArg: []int{0}, Finger: map[int][]string{0: {"'5 \\'mg\\''.convertsToQuantity()", "'x'.convertsToQuantity() = false"}}},
+	{Name: "convertsToQuantity", Counts: []int{0, 1}, Recv: "5", Args: []string{"'days'"}, Impl: true, SingleArg: []int{0}, Finger: map[int][]string{0: {"'5 \\'mg\\''.convertsToQuantity()", "'x'.convertsToQuantity() = false", "Patient.name.first().convertsToQuantity() = false"}, 1: {"5.convertsToQuantity('mg')", "'5 mg'.convertsToQuantity({}).empty()", "5.convertsToQuantity('days')"}}},
 	{Name: "toString", Counts: []int{0}, Recv: "12", Impl: true, Finger: map[int][]string{0: {"12.toString() is System.String", "12.toString() = '12'", "true.toString() = 'true'"}}},
-	{Name: "convertsToString", Counts: []int{0}, Recv: "12", Impl: true, Finger: map[int][]string{0: {"'abc'.convertsToString()", "{}.convertsToString().empty()", "12.convertsToString()"}}},
+	{Name: "convertsToString", Counts: []int{0}, Recv: "12", Impl: true, Finger: map[int][]string{0: {"'abc'.convertsToString()", "{}.convertsToString().empty()", "12.convertsToString()", "Patient.name.first().convertsToString() = false", "Patient.convertsToString() = false"}}},
 	{Name: "toTime", Counts: []int{0}, Recv: "'10:30'", Impl: true, Finger: map[int][]string{0: {"'10:30'.toTime() is System.Time", "'10:30'.toTime() = @T10:30"}}},
 	{Name: "convertsToTime", Counts: []int{0}, Recv: "'10:30'", Impl: true, Finger: map[int][]string{0: {"'10:30'.convertsToTime()", "'2020'.convertsToTime() = false"}}},
 	{Name: "indexOf", Counts: []int{1}, Recv: "'abcdefg'", Args: []string{"'cd'"}, Impl: true, SingleArg: []int{0}, Finger: map[int][]string{1: {"'abcdefg'.indexOf('cd') = 2", "'abcdefg'.indexOf('x') = -1"}}},
